@@ -45,6 +45,23 @@ class QURotationOperator(AbstractLinearOperator):
         structure = StokesPyTree.class_for(stokes).structure_for(shape, dtype)
         return cls(angles, structure)
 
+    def __check_init__(self) -> None:
+        # the angles are broadcast against the Q and U components: unless they broadcast to the shape of these
+        # components, mv returns leaves of another shape than the one declared by the structure
+        if isinstance(self._in_structure, StokesIPyTree):
+            return
+        angles_shape = jnp.shape(self.angles)
+        for leaf in jax.tree.leaves(self._in_structure):
+            try:
+                broadcast_shape = jnp.broadcast_shapes(angles_shape, leaf.shape)
+            except ValueError:
+                broadcast_shape = None
+            if broadcast_shape != tuple(leaf.shape):
+                raise ValueError(
+                    f'The angles of shape {angles_shape} cannot be broadcast to the shape {leaf.shape} '
+                    f'of the Stokes components.'
+                )
+
     def mv(self, x: StokesPyTreeType) -> StokesPyTreeType:
         if isinstance(x, StokesIPyTree):
             return x
